@@ -35,6 +35,7 @@ SKINDS = {'module': 'SModule', 'class': 'SClass', 'function': 'SFunction', 'lamb
 IMPORT_KINDS = ('import', 'dotted', 'from', 'star')
 FINDING_ID = 'K3-C10'
 K3_INPUT = 'global os\nimport os\n'
+# characters that str.splitlines() treats as line boundaries while ast / tokenize do not
 ODD_NEWLINES = '\x0b\x0c\x1c\x1d\x1e\x85\u2028\u2029'
 
 
@@ -534,6 +535,7 @@ class Gen(object):
         self.read_pool = []
         self.use_locals = rng.random() < 0.3
         self.p_reuse = rng.choice([0.03, 0.08, 0.2])
+        self.use_breaks = rng.random() < 0.4     # page breaks and other splitlines-only separators
 
     def ident(self):
         """-> (identifier, will_be_read)"""
@@ -675,6 +677,8 @@ class Gen(object):
             choices += ['global_mod']
         if sk == 'function' and is_async:
             choices += ['asyncfor', 'asyncwith']
+        if self.use_breaks:
+            choices += ['pagebreak', 'pagebreak', 'pagebreak']
         if self.use_locals and (sk == 'function' or r.random() < 0.15):
             choices += ['locals']
         if not simple and depth < 4:
@@ -874,6 +878,21 @@ class Gen(object):
             if rd:
                 out += self.use(i2, nm)
             return out
+        if k == 'pagebreak':
+            # form feed section separators and the other characters only str.splitlines() takes for line
+            # ends (they are in-line whitespace / ordinary characters for ast and tokenize): every
+            # position reported BELOW must still be the binding's own
+            f = r.random()
+            if f < 0.35:
+                return ['\x0c'] if r.random() < 0.7 else [ind + '\x0c']
+            if f < 0.65:
+                return [ind + '# section ' + ''.join(r.choice(ODD_NEWLINES) + ' part ' for _ in range(r.randint(1, 3)))]
+            nm, rd = self.ident()
+            sep = ''.join(r.choice(ODD_NEWLINES) for _ in range(r.randint(1, 2)))
+            if f < 0.85:
+                return [ind + '%s = "a%sb"' % (nm, sep)] + self.reads_of(ind, [(nm, rd)])
+            q = "'" * 3
+            return [ind + '%s = %sdoc%s' % (nm, q, sep), 'more %s text%s' % (sep, q)] + self.reads_of(ind, [(nm, rd)])
         if k == 'noise':
             return self.noise(ind) or [ind + 'pass']
         if k == 'def':
@@ -950,6 +969,8 @@ class Gen(object):
                 else:
                     parts.append(f)
             out.insert(0, 'from __future__ import ' + ', '.join(parts))
+        if self.use_breaks and r.random() < 0.5:
+            out.append(r.choice(['\x0c', '# \x0c\x0b', '\x0c\x0c']))
         out += self.body('module', 0, '')
         if self.use_locals and r.random() < 0.6:
             # a function whose locals() call sees every module-level name
@@ -1029,6 +1050,12 @@ HAND = [
     'try:\n    import json\nexcept ImportError:\n    import pickle as json\n\nif len("x"):\n    import marshal as ser\nelse:\n    import shelve as ser\n\nimport os\n\n\ndef snapshot():\n    return locals()\n',
     'def f():\n    if c:\n        x = 1\n    else:\n        x = 2\n    y = 3\ndef g():\n    z = 4\n    return locals()\nclass K:\n    import os\n    def m(self):\n        w = 5\n        return lambda: locals()\n',
     'import os\nif c:\n    import a as x\nelse:\n    import b as x\nlocals()\ndef f(p):\n    q = 1\n',
+    # round 4: page breaks (form feed) and the other separators only str.splitlines() splits at, above bindings
+    # whose position is found by text search (import aliases, def / class names)
+    '\x0c\nimport os\nimport a.b, a.c\nfrom time import time\n\x0c\ndef f():\n    \x0c\n    def g(): pass\n    class C: pass\n    import sys\n',
+    '# a\x0bb\x1cc\x1dd\x1ee\nimport os\nx = "p\x0cq"\nimport re as r\nclass K:\n    # \x0c\n    from a import b\ndef f():\n    # \x1c\n    def g(): pass\n',
+    '# nel \x85 ls \u2028 ps \u2029\nimport os\ndef f():\n    s = "\u2028"\n    class C: pass\n    import sys as y\n',
+    '\x0cimport os\n\x0c\n\x0c\nfrom m import (\n    a,\n\x0c\n    b as c,\n)\n',
     # round 3: parenthesised annotated target; names beside subscript/attribute targets; other imports of a
     # package that is used through a dotted import; comprehension variable named like a declared global
     'def f():\n    (b): int = 2\n    c: int = 3\nclass K:\n    (d): int = 4\n    def m(self):\n        (e): "T" = (5)\n',
@@ -1198,9 +1225,11 @@ def run(ctx):
         except (UnicodeDecodeError, OSError):
             ctx.histogram('file_status', 'unreadable')
             continue
-        if not text.isascii() or any(c in text for c in ODD_NEWLINES) or len(text) > 150000:
-            ctx.histogram('file_status', 'skipped:non-ascii/odd-newline/too-large')
+        if not text.isascii() or len(text) > 150000:
+            ctx.histogram('file_status', 'skipped:non-ascii/too-large')
             continue
+        if any(c in text for c in ODD_NEWLINES):
+            ctx.histogram('file_status', 'with form feeds / splitlines-only separators')
         handle(text, fn, stub, 'real', keep_source=False, cap_read=40)
     ctx.log('real files %d: %d binding cases' % (len(files), len(binding_cases) - nb0))
     cov['binding_cases'] = len(binding_cases)
